@@ -433,6 +433,11 @@ def r2_histogram_rows(repo, report):
         it = g.iter
         elt_ok = isinstance(comp.elt, ast.Subscript) and src(comp.elt.slice) == t and not g.ifs
         table = src(comp.elt.value) if isinstance(comp.elt, ast.Subscript) else None
+        # TABLE.get(e, 0) reads the same tally (a missing number of errors has occurred 0 times)
+        e_ = comp.elt
+        if isinstance(e_, ast.Call) and isinstance(e_.func, ast.Attribute) and e_.func.attr == "get" and len(e_.args) == 2 and src(e_.args[0]) == t and isinstance(e_.args[1], ast.Constant) and e_.args[1].value == 0 and not e_.keywords:
+            elt_ok = not g.ifs
+            table = src(e_.func.value)
         rng = isinstance(it, ast.Call) and chain(it.func) == "range" and len(it.args) in (1, 2) and (len(it.args) == 1 or src(it.args[0]) == "0")
         upper = it.args[-1] if rng else None
         # the upper bound is (largest error number seen for this length) + 1
